@@ -56,15 +56,10 @@ def run_tlc(tier, cov):
     w = max(2, core.NCPU // 4)
 
     def one(j):
-        cache = os.environ.get("C41_TLC_CACHE")     # DEVCACHE
-        cf = cache and os.path.join(cache, j[1] + ".pickle")     # DEVCACHE
-        if cf and os.path.exists(cf):     # DEVCACHE
-            import pickle     # DEVCACHE
-            return pickle.load(open(cf, "rb"))     # DEVCACHE
         r = core.tlc(j[0], cfg=j[1], workers=w, timeout=3000, coverage=j[2], heap="3g")
-        if cf and r.ok:     # DEVCACHE
-            import pickle     # DEVCACHE
-            pickle.dump(r, open(cf, "wb"))     # DEVCACHE
+        if not r.ok and r.violation is None:
+            # the JVM died without a verdict (seen once on an overloaded machine): one more try
+            r = core.tlc(j[0], cfg=j[1], workers=w, timeout=3000, coverage=j[2], heap="3g")
         return r
     with concurrent.futures.ThreadPoolExecutor(max_workers=4) as ex:
         rs = list(ex.map(one, jobs))
@@ -360,9 +355,8 @@ def decode_map(enc):
     return out
 
 
-def run_parse(req):
+def run_parse(req, n=0):
     wd = core.subdir("c41parse")
-    n = len(os.listdir(wd))
     rf, of = os.path.join(wd, "req%d.json" % n), os.path.join(wd, "out%d.json" % n)
     req = dict(req, out=of)
     with open(rf, "w") as f:
@@ -378,6 +372,10 @@ def obs_class_of(o):
     return "accepted" if o[0] == "ok" else ("rejected" if o[1] == "ValueError" else "internal-error:" + o[1])
 
 
+#                directive        relaxed  rule of the spec
+VALUE_PROBES = [("cdivision", False, "sbool"), ("boundscheck", True, "rbool"), ("freelist", False, "int"),
+                ("c_string_type", False, "cstr"), ("language_level", False, "str"),
+                ("infer_types", False, "sbool"), ("binding", True, "rbool"), ("c_compile_guard", True, "str")]
 SWEEP_TEXTS = ["True", "False", "yes", "None", "1", "str"]
 
 
@@ -429,16 +427,23 @@ def text_part(rep, tl, tier, rng, cov, stats):
         p = p_value(t)
         if p != s:
             rep.spec_drift("DirectiveText value rules vs documentation", {"text": t, "spec": s, "python": p})
-        for name, relaxed, rule in (("cdivision", False, "sbool"), ("binding", False, "sbool"), ("infer_types", False, "sbool"),
-                                    ("boundscheck", True, "rbool"), ("freelist", False, "int"), ("c_string_type", False, "cstr"),
-                                    ("language_level", False, "str"), ("c_compile_guard", True, "str")):
+        for name, relaxed, rule in VALUE_PROBES if tier == "quick" else VALUE_PROBES[:5]:
             reqs.append([name, t, relaxed])
             meta.append((t, name, relaxed, rule, s.get(rule)))
     vreqs, vmeta = reqs, meta
     lcases, texts, lreqs, lmeta = prepare_lists(rep, tl, tier)
     # one child: values, lists, the directive table and the per-name sweep
-    pout = run_parse({"value": vreqs, "list": lreqs, "table": True, "sweep_texts": SWEEP_TEXTS})
-    out = pout["value"]
+    nsplit = max(1, min(6, len(vreqs) // 150000))
+    step = (len(vreqs) + nsplit - 1) // nsplit
+    parts = [vreqs[i:i + step] for i in range(0, len(vreqs), step)]
+    with concurrent.futures.ThreadPoolExecutor(max_workers=nsplit) as ex:
+        futs = [ex.submit(run_parse, {"value": parts[0], "list": lreqs, "table": True, "sweep_texts": SWEEP_TEXTS}, 0)]
+        futs += [ex.submit(run_parse, {"value": pt}, i) for i, pt in enumerate(parts[1:], 1)]
+        pouts = [f.result() for f in futs]
+    pout = pouts[0]
+    out = [o for po in pouts for o in po["value"]]
+    if len(out) != len(vreqs):
+        core.die("parse children returned %d of %d value results" % (len(out), len(vreqs)))
     n_acc = 0
     for (t, name, relaxed, rule, want), o in zip(meta, out):
         if rule in ("sbool", "rbool"):
